@@ -259,3 +259,9 @@ def check(run):
     r2_completeness(run, F)
     r3_literals(run, F)
     r4_indentation(run, F)
+    if run.tier == "thorough":
+        FA = run.facts("A")
+        run.key_prefix = "cfgA:"
+        for fn in (r1_spellings, r2_completeness, r3_literals, r4_indentation):
+            fn(run, FA)
+        run.key_prefix = ""
